@@ -141,7 +141,10 @@ SigBare == {SVec(<<Bin(V20), Forged("gz"), StdDat("gz"), Sig("origin", "k1", <<1
                  "origin", <<"k1">>, NoTamper, <<1, 2, 5>>),
             SVec(<<Bin(V20), Forged("gz"), StdDat("gz"), Sig("origin", "k1", <<1, 5, 3>>), [StdCtl("gz") EXCEPT !.name = "control.", !.extname = ""]>>,
                  "origin", <<"k1">>, NoTamper, <<1, 5, 3>>)}
-C16Vecs == SigBasic \cup SigFlips \cup SigMore \cup SigMulti \cup SigDecoys \cup SigWrong \cup SigBare
+\* "_gpg" + a 12-character role = a member name of exactly 16 bytes: the role asked for must be that very name
+LongRole == "origin-2026a"
+SigLongRole == {SVec(Signed("gz", LongRole, "k1"), ask, <<"k1">>, NoTamper, <<1, 2, 3>>) : ask \in {LongRole, "origin-2026", "origin-2026ab", "origin"}}
+C16Vecs == SigLongRole \cup SigBasic \cup SigFlips \cup SigMore \cup SigMulti \cup SigDecoys \cup SigWrong \cup SigBare
 
 \* ---- several loaded packages alive in one process -----------------------------------------------------
 \* three signed packages with different names and payloads; handle h holds package PkgOfHandle[h].
